@@ -21,6 +21,7 @@ import SJ.Drv.StreamRaw
 import SJ.Drv.LexMath
 import SJ.Drv.StreamTyped
 import SJ.Drv.LineCol
+import SJ.Drv.Readers
 /-!
 `sjdriver` — reads case lines `op args… => impl-observation` on stdin, runs the Lean model and the
 executable specification on each, prints
@@ -55,6 +56,7 @@ def allHandlers : List (String × Handler) :=
     LexMath.handlers,
     StreamTyped.handlers,
     LineCol.handlers,
+    Readers.handlers,
   ]
 
 def findHandler (op : String) : Option Handler := (allHandlers.find? (·.1 == op)).map (·.2)
